@@ -4,6 +4,7 @@ FILE* uv::out = NULL;
 static uv::Cmd cmds[] = {
 	{"namematch", cmd_namematch},
 	{"trace", cmd_trace},
+	{"json", cmd_json},
 	{0, 0}
 };
 int main(int argc, char** argv) {
